@@ -106,7 +106,7 @@ def generate(cls, rng):
         for _ in range(rng.choice([2, 2, 3])):
             prog = []
             for _ in range(rng.randrange(2, 7)):
-                when = [rng.choice([1999, 2000, 2023, 2024]),
+                when = [rng.choice(YEARS),
                         rng.choice(["start", "end"]),
                         rng.choice([-86400, -1800, -1, 0, 1, 1800, 86400,
                                     rng.randrange(-10 ** 7, 10 ** 7)])]
@@ -166,7 +166,7 @@ def generate(cls, rng):
             handles += 1
         elif r < 0.88:
             ops.append(["query", "h%d" % rng.randrange(handles),
-                        rng.choice([1999, 2000, 2023, 2024]),
+                        rng.choice(YEARS),
                         rng.choice(["start", "end"]),
                         rng.choice([-86400, -1800, -1, 0, 1, 1800, 86400,
                                     rng.randrange(-10 ** 7, 10 ** 7)])])
@@ -176,7 +176,8 @@ def generate(cls, rng):
                                     "bad_letter", "short_m", "hash",
                                     "space", "double_comma", "trailing_slash",
                                     "empty_time", "lower_rule", "two_signs",
-                                    "leading_digit", "dot_offset"])])
+                                    "leading_digit", "dot_offset",
+                                    "unicode_letter", "unicode_letter2"])])
         elif r < 0.97:
             ops.append(["gmt_plus", rng.choice(["GMT", "UTC"]),
                         rng.choice([-11, -3, 1, 3, 9]), rng.random() < 0.5])
@@ -361,6 +362,13 @@ def judge(env, ctx, h, ts):
     return True
 
 
+# years the zones are questioned in: leap, common and century years, both
+# sides of 2038 and of 2100 (not a leap year). Not before 1970: glibc applies
+# no daylight rule of a TZ string to years before the epoch (checked), so the
+# three-way comparison has no libc side there.
+YEARS = [1999, 2000, 2023, 2024, 1999, 2000, 2023, 2024, 1971, 1972, 2037,
+         2038, 2099, 2100, 2101, 2104, 2200, 2400]
+
 MALFORMERS = {
     "surplus_rule": lambda s: s + ",M1.1.0",
     "missing_end": lambda s: s.rsplit(",", 1)[0],
@@ -380,6 +388,9 @@ MALFORMERS = {
     else s + ",m3.2.0",
     "two_signs": lambda s: _re.sub(r"^([A-Za-z]+)[+-]?", r"\1+-", s, count=1),
     "leading_digit": lambda s: "5" + s,
+    # a letter outside a-z/A-Z inside an abbreviation
+    "unicode_letter": lambda s: s[:1] + "\u00c9" + s[1:],
+    "unicode_letter2": lambda s: s[:2] + "\u6771" + s[2:],
     "dot_offset": lambda s: _re.sub(r"([0-9]+)", r"\1.5", s, count=1),
 }
 
